@@ -36,6 +36,8 @@ type nodePool struct {
 	capacity int   // capacity of nodePool
 	length   int   // length of nodePool
 
+	isFixedKeylen bool // all keys must be exactly elemSize() long
+
 	pool byte_pool.IBytePool // reference to []byte pool
 }
 
@@ -62,6 +64,7 @@ func newNodePool(elemNum, elemSize int, isFixedKeylen bool) *nodePool {
 	np.freeNode = 0 //free node start from 0
 	np.capacity = elemNum
 	np.length = 0
+	np.isFixedKeylen = isFixedKeylen
 
 	if isFixedKeylen {
 		np.pool = byte_pool.NewFixedBytePool(elemNum, elemSize)
@@ -91,9 +94,14 @@ func (np *nodePool) add(head int32, key []byte) (int32, error) {
 		return -1, err
 	}
 
-	np.array[node].next = head
 	//set the node with key
-	np.pool.Set(node, key)
+	if err := np.pool.Set(node, key); err != nil {
+		// give the node back to the freeNode list
+		np.array[node].next = np.freeNode
+		np.freeNode = node
+		return -1, err
+	}
+	np.array[node].next = head
 
 	np.length += 1
 	return node, nil
@@ -197,6 +205,12 @@ func (np *nodePool) elemSize() int {
 
 /* check whtether the key is legal for the set */
 func (np *nodePool) validateKey(key []byte) error {
+	if np.isFixedKeylen {
+		if len(key) == np.elemSize() {
+			return nil
+		}
+		return fmt.Errorf("element len[%d] != fixed key size[%d]", len(key), np.elemSize())
+	}
 	if len(key) <= np.elemSize() {
 		return nil
 	}
